@@ -19,10 +19,82 @@ MUTATING_METHODS = {'_put_src', '_set_ast', '_set_field', '_offset', '_offset_ln
                     '_unparenthesize_grouping', '_undelimit_node', '_maybe_add_line_continuations', '_sanitize'}
 
 
+# callee contract "raises only when keyword <kw> is not <safe>" (the callee side is obligation conditional_raise_callee)
+CONDITIONAL_RAISE = {'_maybe_add_line_continuations': ('del_comments', True)}
+
+
+def conditional_raise_callee(rep, prop):
+    """the callee half of CONDITIONAL_RAISE: every explicit raise of the function is inside `if not <kw>:` and the keyword's
+    default is the safe value; so a call that leaves the keyword at its default (or passes the safe constant) cannot reach
+    an explicit raise of this function"""
+    from pyvc import frontend
+    for fname, (kw, safe) in sorted(CONDITIONAL_RAISE.items()):
+        ident = f'fst_misc:{fname}'
+        loc = frontend.locate(ident)
+
+        class _S:
+            name = f'raises only when {kw} is not {safe} (structural)'
+            notes = ''
+        rep.function(loc, _S)
+        fn = loc.node
+        probs = []
+        defaults = dict(zip([a.arg for a in fn.args.kwonlyargs], fn.args.kw_defaults))
+        d = defaults.get(kw)
+        if not (isinstance(d, ast.Constant) and d.value is safe):
+            probs.append(f'default of {kw} is not {safe}')
+        parents = {}
+        for n in ast.walk(fn):
+            for c in ast.iter_child_nodes(n):
+                parents[c] = n
+        nraise = 0
+        for n in ast.walk(fn):
+            if isinstance(n, ast.Raise):
+                nraise += 1
+                p, child, ok = parents.get(n), n, False
+                while p is not None and p is not fn:
+                    if (isinstance(p, ast.If) and child in p.body and isinstance(p.test, ast.UnaryOp)
+                            and isinstance(p.test.op, ast.Not) and isinstance(p.test.operand, ast.Name)
+                            and p.test.operand.id == kw):
+                        ok = True
+                        break
+                    child, p = p, parents.get(p)
+                if not ok:
+                    probs.append(f'line {n.lineno}: raise not guarded by `if not {kw}`')
+            elif isinstance(n, (ast.Assign, ast.AugAssign, ast.NamedExpr)):
+                for t in ast.walk(n.targets[0] if isinstance(n, ast.Assign) else n.target):
+                    if isinstance(t, ast.Name) and t.id == kw:
+                        probs.append(f'line {n.lineno}: {kw} is reassigned')
+        if not nraise:
+            rep.checker_error(f'{ident}: no raise statement found (anchor changed?)')
+        name = f'{prop}.order.callee.{fname}.raises_only_without_{kw}'
+        rep.other('structural', name, not probs, detail='; '.join(probs[:3]) or f'{nraise} explicit raise(s), all under `if not {kw}`',
+                  key=name, replay={'function': ident, 'problems': probs, 'verifier_output': 'syntactic guard analysis'})
+
+
 class Analysis:
-    def __init__(self, fnode, targets, may_raise, atomic=(), fresh_ctor=()):
+    def __init__(self, fnode, targets, may_raise, atomic=(), fresh_ctor=(), derive=False):
         self.fn = fnode
         self.targets = set(targets)
+        if derive:   # locals bound to a part of the target tree (`f0 := body[0].f`) are target receivers too
+            changed = True
+            while changed:
+                changed = False
+                for n in ast.walk(fnode):
+                    if isinstance(n, ast.NamedExpr):
+                        pairs = [(n.target, n.value)]
+                    elif isinstance(n, ast.Assign) and len(n.targets) == 1:
+                        pairs = [(n.targets[0], n.value)]
+                    else:
+                        continue
+                    for t, v in pairs:
+                        if not isinstance(t, ast.Name) or t.id in self.targets:
+                            continue
+                        b = v
+                        while isinstance(b, (ast.Attribute, ast.Subscript)):
+                            b = b.value
+                        if isinstance(b, ast.Name) and b.id in self.targets and b is not v:
+                            self.targets.add(t.id)
+                            changed = True
         self.may_raise = set(may_raise)
         self.atomic = set(atomic)
         self.problems = []
@@ -55,6 +127,11 @@ class Analysis:
                 while isinstance(b, (ast.Attribute, ast.Subscript)):
                     b = b.value
                 recv = b.id if isinstance(b, ast.Name) else None
+            if name in CONDITIONAL_RAISE and recv in self.targets:
+                kw, safe = CONDITIONAL_RAISE[name]
+                for k in n.keywords:
+                    if k.arg is None or (k.arg == kw and not (isinstance(k.value, ast.Constant) and k.value.value is safe)):
+                        out.append(('raise', f'{name}({kw}=...)', n.lineno))
             if name in self.atomic and (recv is None or recv in self.targets):
                 out.append(('atomic', name, n.lineno))
             elif name in self.may_raise:
@@ -260,6 +337,7 @@ def c12_handlers(rep, prop='C12'):
     saved = set(MUTATING_METHODS)
     MUTATING_METHODS |= mut
     registered, skipped = [], []
+    conditional_raise_callee(rep, prop)
     try:
         for modname, tables in (('fst_put_slice', ['_PUT_SLICE_HANDLERS']), ('fst_put_one', ['_PUT_ONE_HANDLERS'])):
             mod = frontend.module(modname)
@@ -282,7 +360,7 @@ def c12_handlers(rep, prop='C12'):
                         cn = n.func.id if isinstance(n.func, ast.Name) else getattr(n.func, 'attr', '')
                         if re.match(MAY_RAISE_RE, cn):
                             may.add(cn)
-                a = Analysis(fn, {'self', 'root', 'ast', 'body', 'parent'}, may, set())
+                a = Analysis(fn, {'self', 'root', 'ast', 'body', 'parent'}, may, set(), derive=True)
                 probs = a.run()
                 ident = f'{modname}:{nm}'
                 if a.n_mut and a.n_raise and (not probs or nm in BASELINE_HANDLERS):
